@@ -225,6 +225,7 @@ class AioRun:
 
         def on_yield():
             world.current_actor = None
+            self._apply_pending_jump()
             caller.susp += 1
             if self.record_sites:
                 caller.sites.append(suspension_site(caller.program_coro))
@@ -261,6 +262,7 @@ class AioRun:
             caller.error = exc_info(exc)
         finally:
             world.current_actor = None
+            self._apply_pending_jump()
             caller.state = "done"
             self.activity += 1
 
@@ -400,6 +402,7 @@ class AioRun:
                 t = min(h._when for h in timers)
                 if t > self.world.clock.now:
                     self.world.clock.now = t
+                    self._jumped_in_step = self.steps
                     self.log.append((self.steps, "late-loop", t))
         if kind == "advance":
             # time does not jump over a deadline: stop at the earliest timer, keep the remainder for later
@@ -507,6 +510,19 @@ class AioRun:
         finally:
             self._remove_shield_probe()
 
+    def _apply_pending_jump(self):
+        if not getattr(self, "_jump_pending", False):
+            return
+        self._jump_pending = False
+        if getattr(self, "_jumped_in_step", None) == self.steps:
+            return  # one jump per scheduler step: what the first one made due (timeouts, their clean-up) runs before time moves again
+        self._jumped_in_step = self.steps
+        timers = self._timers()
+        t = min(h._when for h in timers) if timers else None
+        if t is not None and t > self.world.clock.now:
+            self.world.clock.now = t
+            self.log.append((self.steps, "late-loop", t))
+
     # ---- track whether a caller is inside an AsyncShieldCancellation block (diagnosis / signatures)
     def _install_shield_probe(self):
         from httpcore import _synchronization as sync_mod
@@ -539,11 +555,11 @@ class AioRun:
                 return
             late = run.late[run.li % len(run.late)]
             run.li += 1
-            timers = run._timers()
-            t = min(h._when for h in timers) if timers else None
-            if late and t is not None and t > run.world.clock.now:
-                run.world.clock.now = t
-                run.log.append((run.steps, "late-loop", t))
+            if late:
+                # time passes "right after" the event is set - for everybody who runs LATER. The task that is running now finishes its
+                # synchronous step on the old clock (otherwise the moment at which it reports its own result would be distorted): the jump
+                # is applied when it suspends or ends
+                run._jump_pending = True
 
         ev_cls.set = set_
         self._event_cls = ev_cls
